@@ -526,11 +526,19 @@ class Scheduler:
                     default = polls[0]
                     self.polled_for = (cur[0][0], self.step_no_of_park.get(cur[0][0]))
             if default is None:
+                # continue the running thread: the process that ran last (or its script), else what it has just started,
+                # else the next command of the same script, and only then its parent (which the thread returns to when
+                # it ends -- a parent that merely waits for several jobs is not "the same thread" as a job that has
+                # just begun)
+                slids = {q.lid for q in self.procs.values() if q.lid.endswith("/s")}
+                best = None
                 for i, c in enumerate(choices):
-                    if c[2] != ENV_KIND and c[3] not in YIELD_LABELS and c[3] != "1" and \
-                            same_thread(c[0], self.last_lid, {q.lid for q in self.procs.values() if q.lid.endswith("/s")}):
-                        default = i
-                        break
+                    if c[2] != ENV_KIND and c[3] not in YIELD_LABELS and c[3] != "1" and same_thread(c[0], self.last_lid, slids):
+                        r = thread_rank(c[0], self.last_lid)
+                        if best is None or r < best[0]:
+                            best = (r, i)
+                if best is not None:
+                    default = best[1]
             if default is None:
                 for i, c in enumerate(choices):
                     if c[2] != ENV_KIND and c[3] not in YIELD_LABELS and c[3] != "1":
@@ -630,6 +638,18 @@ def lidkey(lid):
         except ValueError:
             out.append(0)
     return out
+
+
+def thread_rank(lid, last):
+    """among candidates of the running thread: 0 the same process / its script, 1 its child, 2 a sibling command, 3 its parent"""
+    a, b = lid.replace("/s", ""), last.replace("/s", "")
+    if a == b:
+        return 0
+    if a.startswith(b + "."):
+        return 1
+    if b.startswith(a + "."):
+        return 3
+    return 2
 
 
 def same_thread(lid, last, script_lids=None):
